@@ -59,13 +59,16 @@ pub enum SerEv {
 
 pub struct RecSer<'a> {
     log: &'a mut Vec<SerEv>,
+    human: bool,
 }
 pub struct RecTuple<'a> {
     log: &'a mut Vec<SerEv>,
+    human: bool,
 }
 /// serializer handed to each element: only `serialize_u32` is expected
 pub struct ElemSer<'a> {
     log: &'a mut Vec<SerEv>,
+    human: bool,
 }
 
 macro_rules! other_ser {
@@ -123,13 +126,13 @@ macro_rules! impl_rec_serializer {
             fn serialize_seq(self, _len: Option<usize>) -> Result<RecTuple<'a>, ScriptErr> {
                 let _g = enter(Ctx::Infra);
                 self.log.push(SerEv::Other("serialize_seq"));
-                Ok(RecTuple { log: self.log })
+                Ok(RecTuple { log: self.log, human: self.human })
             }
             fn serialize_tuple(self, len: usize) -> Result<RecTuple<'a>, ScriptErr> {
                 let _g = enter(Ctx::Infra);
                 let f: fn(usize) -> SerEv = $tuple;
                 self.log.push(f(len));
-                Ok(RecTuple { log: self.log })
+                Ok(RecTuple { log: self.log, human: self.human })
             }
             fn serialize_tuple_struct(self, _n: &'static str, _l: usize) -> Result<Self::SerializeTupleStruct, ScriptErr> {
                 Err(ScriptErr("serialize_tuple_struct".into()))
@@ -146,6 +149,9 @@ macro_rules! impl_rec_serializer {
             fn serialize_struct_variant(self, _n: &'static str, _i: u32, _v: &'static str, _l: usize) -> Result<Self::SerializeStructVariant, ScriptErr> {
                 Err(ScriptErr("serialize_struct_variant".into()))
             }
+            fn is_human_readable(&self) -> bool {
+                self.human
+            }
         }
     };
 }
@@ -157,7 +163,7 @@ impl<'a> SerializeTuple for RecTuple<'a> {
     type Ok = ();
     type Error = ScriptErr;
     fn serialize_element<T: ?Sized + Serialize>(&mut self, value: &T) -> Result<(), ScriptErr> {
-        value.serialize(ElemSer { log: self.log })
+        value.serialize(ElemSer { log: self.log, human: self.human })
     }
     fn end(self) -> Result<(), ScriptErr> {
         let _g = enter(Ctx::Infra);
@@ -169,7 +175,7 @@ impl<'a> ser::SerializeSeq for RecTuple<'a> {
     type Ok = ();
     type Error = ScriptErr;
     fn serialize_element<T: ?Sized + Serialize>(&mut self, value: &T) -> Result<(), ScriptErr> {
-        value.serialize(ElemSer { log: self.log })
+        value.serialize(ElemSer { log: self.log, human: self.human })
     }
     fn end(self) -> Result<(), ScriptErr> {
         let _g = enter(Ctx::Infra);
@@ -196,6 +202,8 @@ pub struct ScriptDe<'a> {
     hint0: u32,
     running: u32,
     err_at: Option<usize>,
+    /// what `is_human_readable()` answers (false = a compact binary format)
+    human: bool,
 }
 
 pub const N_HINT0: u32 = 5;
@@ -290,6 +298,9 @@ impl<'de, 'a> Deserializer<'de> for ScriptDe<'a> {
         self.st.tuple_len = Some(len);
         visitor.visit_seq(ScriptSeq { d: &mut self })
     }
+    fn is_human_readable(&self) -> bool {
+        self.human
+    }
 }
 
 /// deserializer for one element: a u32
@@ -366,7 +377,7 @@ impl<'a, E: Elem> GSerde<'a, E> {
         let n = arr.len();
         let ids = with_arr!(arr; x, N => { let _ = N::USIZE; ids_of(x.as_slice(), 970) });
         let mut log: Vec<SerEv> = infra(Vec::new);
-        let r = with_arr!(arr; x, N => { let _ = N::USIZE; lib(|| x.serialize(RecSer { log: &mut log })) });
+        let r = with_arr!(arr; x, N => { let _ = N::USIZE; lib(|| x.serialize(RecSer { log: &mut log, human: a[1] % 2 == 0 })) });
         cx.cov(&[OpKind::SerRecord as u64, n as u64]);
         match r {
             Ok(res) => {
@@ -475,6 +486,8 @@ impl<'a, E: Elem> GSerde<'a, E> {
         // the in-place entry point (`Deserialize::deserialize_in_place`) on an existing array
         let in_place = (a[2] / N_HINT0) % 2 == 1;
         let running = a[3] % N_RUNNING;
+        // the source may present itself as a compact binary format
+        let human = (a[3] / N_RUNNING) % 2 == 0;
         // a[4]: 0 = no element error, k+1 = element k fails (k in 0..=c)
         let err_at = if a[4] == 0 { None } else { Some((a[4] as usize - 1) % (c + 1)) };
         let err_at = err_at.filter(|&k| k < c);
@@ -485,7 +498,7 @@ impl<'a, E: Elem> GSerde<'a, E> {
         }
         let mut survivor: Option<Arr<E>> = None;
         let r = with_len!(li; N => lib(|| {
-            let de = ScriptDe { st: &mut st, c, n, hint0, running, err_at };
+            let de = ScriptDe { st: &mut st, c, n, hint0, running, err_at, human };
             if in_place {
                 let mut place = GenericArray::<E, N>::generate(|_| { let _g = enter(Ctx::Work); E::make() });
                 let res = <GenericArray<E, N> as serde::Deserialize>::deserialize_in_place(de, &mut place);
@@ -505,7 +518,7 @@ impl<'a, E: Elem> GSerde<'a, E> {
             self.put_arr(cx, x);
         }
         let err_class = match err_at { None => 0, Some(k) if k < n => 1 + (k == 0) as u64 + 2 * (k + 1 == n.min(c)) as u64, Some(_) => 5 };
-        cx.cov(&[OpKind::DeScripted as u64, n as u64, (c as i64 - n as i64 + 4) as u64, hint0 as u64, running as u64, err_class, match h0 { None => 0, Some(h) if h == n => 1, _ => 2 }, in_place as u64]);
+        cx.cov(&[OpKind::DeScripted as u64, n as u64, (c as i64 - n as i64 + 4) as u64, hint0 as u64, running as u64, err_class, match h0 { None => 0, Some(h) if h == n => 1, _ => 2 }, in_place as u64, human as u64]);
         if let Some(k) = err_at {
             if k < n {
                 cx.probe("scripted deserializer: element error among the first N");
